@@ -123,8 +123,10 @@ class FakeClient:
     async def publish(self, topic, payload=None, qos=0, retain=False, *args, **kwargs) -> None:
         await asyncio.sleep(0)
         if self.broker.fail_publish_next:
-            self.broker.fail_publish_next = False
-            raise MqttError("publish failed")
+            kind, self.broker.fail_publish_next = self.broker.fail_publish_next, False
+            if kind == "MqttCodeError":
+                raise aiomqtt.MqttCodeError(4, "publish refused")
+            raise MqttError("publish confirmation timed out")
         self.broker.published.append((topic, payload, qos, retain))
 
 
@@ -180,7 +182,7 @@ def _ops():
         (3, _msg().map(lambda m: ["echo", m])),
         (2, st.tuples(_msg(), st.sampled_from(("\xff\xfe", "\x80", "ab\xe9", "\xc3\x28"))).map(lambda t: ["deliver_bin", t[0][:5], t[1]])),
         (4, st.just(["read"])),
-        (1, st.just(["publish_fault"])),
+        (1, st.builds(lambda a, e: ["publish_fault", a, e], st.sampled_from((0, 1)), st.sampled_from(("MqttError", "MqttCodeError")))),
         (1, st.just(["broker_error"])),
         (1, st.just(["disconnect"])),
         (2, st.just(["reconnect"])),
@@ -202,6 +204,12 @@ def strategy(tier: str):
 def enumerate_cases(tier: str):
     yield {"in_prefix": "mygateway1-out", "out_prefix": "mygateway1-in", "connect_fault": "none", "ops": []}
     yield {"in_prefix": "a/b/c", "out_prefix": "d/e", "connect_fault": "none", "ops": [["disconnect"]]}
+    burst = [["deliver", [7, 1, 1, 0, 2, str(i)]] for i in range(5000)]
+    burst[2500] = ["deliver_bin", [7, 1, 1, 0, 2], "\xff\xfe"]
+    yield {"in_prefix": "burst-in", "out_prefix": "burst-out", "connect_fault": "none", "ops": burst}
+    for ack in (0, 1):
+        for err in ("MqttError", "MqttCodeError"):
+            yield {"in_prefix": "in", "out_prefix": "out", "connect_fault": "none", "ops": [["publish_fault", ack, err], ["deliver", [1, 1, 1, 0, 2, "1"]], ["read"]]}
     for prefix in ("gw1/out", "home/gw1", "site2/floor/mys-out", "1/2/3", "out", "255"):
         for node in (1, 12, 21, 254, 255):
             yield {"in_prefix": prefix, "out_prefix": prefix + "x", "connect_fault": "none",
@@ -341,9 +349,10 @@ def run_case(case: dict) -> Outcome:
                 dead = True
                 await settle()
             elif kind == "publish_fault":
-                broker.fail_publish_next = True
+                ack_flag = op[1] if len(op) > 1 else 0
+                broker.fail_publish_next = op[2] if len(op) > 2 else "MqttError"
                 try:
-                    await transport.write("1;1;1;0;2;1\n")
+                    await transport.write(f"1;1;1;{ack_flag};2;1\n")
                 except TransportError:
                     pass
                 except Exception as err:  # noqa: BLE001
